@@ -161,6 +161,11 @@ def run_one(prop, tier, seed):
         # in isolation depends on calls made earlier in the same process (module-level state of the library).  It is reported
         # as a violation all the same - the artefact says so.
         print(f"[{prop}] note: not reproducible in isolation (depends on earlier calls in the same process): {flaky}")
+    if core.HARNESS_ERRORS and rc == 1:
+        print(f"[{prop}] note: {len(core.HARNESS_ERRORS)} work unit(s) crashed in harness code (see stderr); the violations above come from the other units")
+    elif core.HARNESS_ERRORS:
+        sys.stderr.write(f"HARNESS-ERROR: {len(core.HARNESS_ERRORS)} work unit(s) crashed in harness code and no violation was found: {core.HARNESS_ERRORS[:3]}\n")
+        return 2
     if goal_fail and rc == 1:
         # violations were found: an outcome class that never occurred is most likely their consequence, not a vacuous exploration
         print(f"[{prop}] note: outcome classes that never occurred in this run: {goal_fail}")
